@@ -45,6 +45,25 @@ Definition subband_of (nchans nsubs c : Z) : Z := (c * nsubs) / nchans.
 (** the final [fold_ar /= count_ar] *)
 Definition cell_mean (f c : arr) (k : Z) : Q := inject_Z (f k) / inject_Z (c k).
 
+(** * the whole Filterbank.fold call, starting from the vector [raw] that get_dmdelays returns (entries of either sign:
+    descending or ascending band, positive or negative DM): chan_delays = raw shifted by the regenerated [fold_delay_of]
+    with dmin = raw.min(), max_delay = int(chan_delays.max()) (the translator accepts exactly this statement order) *)
+Fixpoint vmin (n : nat) (v : arr) : Z := match n with O => v 0 | S m => Z.min (vmin m v) (v (Z.of_nat m)) end.
+Fixpoint vmax (n : nat) (v : arr) : Z := match n with O => v 0 | S m => Z.max (vmax m v) (v (Z.of_nat m)) end.
+Definition call_delays (nch : Z) (raw : arr) : arr := fun c => fold_delay_of (vmin (Z.to_nat nch) raw) (raw c).
+Definition call_md (nch : Z) (raw : arr) : Z := vmax (Z.to_nat nch) (call_delays nch raw).
+Definition fold_call (fs : list file) (nch gulp start nsamps nn : Z) (raw : arr) (tsamp period accel : Q)
+    (nbins nints nbands : Z) : option (arr * arr) :=
+  fold_pipe fs nch gulp start nsamps nn (call_md nch raw) (call_delays nch raw) tsamp period accel nbins nints nbands.
+
+(** the samples [xs] held by one file, or by two contiguous files cut after [k] elements (k <= 0: one file) *)
+Definition split_files (xs : list Z) (k : Z) : list file :=
+  if k <=? 0 then [mkfile [224] xs] else [mkfile [224] (firstn (Z.to_nat k) xs); mkfile [224] (skipn (Z.to_nat k) xs)].
+
+(** sum over folded samples a < n and channels c < nch of [v a c] for the (a, c) whose cube coordinates are (i, b, p) *)
+Definition cubesum (nch : Z) (si sb pb : Z -> Z) (v : Z -> Z -> Z) (n : Z) (i b p : Z) : Z :=
+  sum_n (Z.to_nat n) (fun a => sumif (Z.to_nat nch) (fun c => (si a =? i) && (sb c =? b) && (pb a =? p)) (fun c => v a c)).
+
 (** * evaluation entry points of the correspondence run *)
 Definition q_of (p : Z * Z) : Q := Qmake (fst p) (Z.to_pos (snd p)).
 
@@ -52,7 +71,9 @@ Definition out_lists (ncells : Z) (r : option (arr * arr)) : list Z * list Z :=
   match r with Some (f, c) => (to_list ncells f, to_list ncells c) | None => ([-1], [-1]) end.
 
 (** api 0: Filterbank.fold on a single 8-bit file holding [xs]; api 1: kernels.fold called directly on [xs]
-    (then gulp is the kernel's index, start its total_nsamps and nn unused); api 2: TimeSeries.fold on [xs] *)
+    (then gulp is the kernel's index, start its total_nsamps and nn unused); api 2: TimeSeries.fold on [xs];
+    api 3: the whole Filterbank.fold call from the vector [dl] get_dmdelays returned (any sign; the model shifts it and
+    takes max_delay itself), on one file or, when the [md] slot holds a split sample > 0, on two contiguous files *)
 Definition fold_eval (api : Z) (xs : list Z) (nch gulp start nsamps nn md : Z) (dl : list Z) (tsamp period accel : Z * Z)
     (nbins nints nbands : Z) : list Z * list Z :=
   let ts := q_of tsamp in let p := q_of period in let ac := q_of accel in
@@ -62,5 +83,8 @@ Definition fold_eval (api : Z) (xs : list Z) (nch gulp start nsamps nn md : Z) (
   else if api =? 1 then
     out_lists (nbins * nints * nbands)
               (Some (fold_run (of_list xs) zeros zeros (of_list dl) md ts p ac start nsamps nch nbins nints nbands gulp))
+  else if api =? 3 then
+    out_lists (fold_ncells nbins nints (fold_nbands nbands nch))
+              (fold_call (split_files xs (md * nch)) nch gulp start nsamps nn (of_list dl) ts p ac nbins nints nbands)
   else
     out_lists (ts_fold_ncells nbins nints) (Some (ts_fold (of_list xs) nsamps ts p ac nbins nints)).
